@@ -166,7 +166,7 @@ ob("ctl", "VerifC03XCtl", q, uniq(t),
    "fixnum |x| < 1300; (read-from-string (prin1-to-string obj)) / write-to-string must give back an equal object, and prin1 / "
    "write to a string stream (with-output-to-string) must produce the same text as the -to-string function",
    pkg="pkg/cl", carves=["C03-integer-digits-spell-t-or-nil", "C03-print-miser-width-nil-rejected", "C03-array-rank-in-print-base"],
-   max_case_s=900)
+   max_case_s=900, max_depth=3000)
 
 q = [(w, s_, h) for w in range(6) for s_ in (0, 1) for h in (0, 1) if not (w == 5 and s_ == 1)]
 ob("var", "VerifC03XVar", q, q,
